@@ -506,7 +506,7 @@ class Judge:
     def __init__(self, ctx, tier):
         self.ctx, self.tier = ctx, tier
         self.real_lib = None
-        self.shrinks_left = 1 if tier == 'quick' else 3
+        self.shrinks_left = 0 if tier == 'quick' else 3     # witnesses are minimised in the thorough tier only
         self.baseline_cache = {}
         self.all_exp_cache = {}
 
@@ -612,9 +612,9 @@ class Judge:
                 else:
                     ctx.count('error_cases_raised')
             if rec.get('outcome') == 'raised' and s.get('state_check'):
-                tainted = any((steps[j].get('interrupt') and recs[j].get('fired')) or steps[j].get('corrupt') for j in range(i))
+                tainted = any((steps[j].get('interrupt') and recs[j].get('fired')) or steps[j]['op'] in ('write', 'delete') for j in range(i))
                 if tainted and not s.get('interrupt'):
-                    ctx.count('failed_load_state_not_judged')     # an earlier interrupted / corrupt load is judged on its own
+                    ctx.count('failed_load_state_not_judged')     # effects of an earlier interrupted load / file rewrite are judged on their own
                 else:
                     self.partial_check(sc, i, rec)
             c = None
@@ -670,8 +670,10 @@ class Judge:
                     mech = s['mech']
                 elif base == 'dump-differs-by-history':
                     mech = base + ':after-' + history_class(use['steps'][:i])
+                elif base.startswith('load-fails-after-history'):
+                    mech = base + ':after-' + history_class(use['steps'][:i])
                 else:
-                    mech = base + ':' + qual
+                    mech = base + ':' + qual      # qualifier = what the fresh process raised
                 ctx.violation(mech, '%s: load_theory(%r, limit=%r%s) after history [%s] vs. fresh process: %s' % (
                     base, s['name'], s.get('limit'), ', username=%r' % s['username'] if s.get('username') else '',
                     ' ; '.join(fmt_step(x) for x in use['steps'][:i]), json.dumps(detail)[:400]),
